@@ -140,7 +140,7 @@ def eval_geom(g, surf_side, cell_in):
 def generate(rng, ncells=None, features=None):
     """features: optional set restricting what may appear, from
     {"transforms","periodic","boundary","universes","lattice","complements","thermal","data_placement","shortcuts","message","trcl"}
-    ("lattice" and "trcl" are not in the default set)"""
+    ("lattice", "lat_simple" and "trcl" are not in the default set; "lat_simple" = lattice cells filled with one universe)"""
     F = features if features is not None else {
         "transforms", "periodic", "boundary", "universes", "complements", "thermal", "data_placement", "shortcuts", "message",
     }
@@ -223,11 +223,22 @@ def generate(rng, ncells=None, features=None):
                 c["fill"] = rng.choice(used)
                 if tr_numbers and rng.random() < 0.3:
                     c["fill_tr"] = rng.choice(tr_numbers)
-    if "lattice" in F:
-        # lattice cells have FILL (well-formedness); hexahedral geometry is MCNP's business, not the reader's
+    if "lat_simple" in F:
+        # (C09) lattice cells filled with ONE universe: lattice cells have FILL (well-formedness); hexahedral
+        # geometry is MCNP's business, not the reader's
         for c in cells:
             if c["fill"] is not None and rng.random() < 0.6:
                 c["lat"] = rng.choice([1, 1, 2])
+    if "lattice" in F and universes:
+        # a lattice cell filled with a matrix of universes: fill = [[imin,imax],[jmin,jmax],[kmin,kmax], [universe numbers]]
+        used = sorted({c["u"] for c in cells if c["u"] is not None})
+        for c in cells[: len(cells) // 2]:
+            if rng.random() < 0.4:
+                ni, nj = rng.choice([(2, 1), (1, 2), (2, 2), (3, 1)])
+                i0, j0 = rng.choice([0, -1]), rng.choice([0, -1])
+                c["lat"] = rng.choice([1, 2])
+                c["fill"] = [[i0, i0 + ni - 1], [j0, j0 + nj - 1], [0, 0], [rng.choice(used) for _ in range(ni * nj)]]
+                c["fill_tr"] = None
     if "trcl" in F and tr_numbers:
         for c in cells:
             if rng.random() < 0.15:
@@ -237,8 +248,10 @@ def generate(rng, ncells=None, features=None):
         for k in placement:
             if rng.random() < 0.35:
                 placement[k] = "data"
-        if any(c["fill_tr"] is not None for c in cells):
-            placement["fill"] = "cell"  # a fill with a transform cannot live in the data block (MontePy raises deliberately)
+        if any(c["fill_tr"] is not None or isinstance(c["fill"], list) for c in cells):
+            placement["fill"] = "cell"  # a fill with a transform / a matrix fill cannot live in the data block (MontePy raises deliberately)
+        if any(c["lat"] is not None for c in cells) and "lat_simple" not in F:
+            placement["lat"] = "cell"  # (with "lat_simple", C09's own feature, LAT may be given in the data block)
     extra = [["nps", ["1000"]]]
     if rng.random() < 0.5:
         extra.append(["sdef", ["pos", "0", "0", "0", "erg", spell(rng, fnum(rng, positive=True, small=True), False)]])
@@ -310,9 +323,11 @@ def cards(gp, rng, redundant=0.15, shortcuts=True):
             params.append(("vol", [spell(rng, c["vol"], False)]))
         if place["u"] == "cell" and c["u"] is not None:
             params.append(("u", [str(c["u"])]))
-        if place["lat"] == "cell" and c.get("lat") is not None:
+        if c.get("lat") is not None and place["lat"] == "cell":
             params.append(("lat", [str(c["lat"])]))
-        if place["fill"] == "cell" and c["fill"] is not None:
+        if place["fill"] == "cell" and isinstance(c["fill"], list):
+            params.append(("fill", [f"{a}:{b}" for a, b in c["fill"][:3]] + [str(u) for u in c["fill"][3]]))
+        elif place["fill"] == "cell" and c["fill"] is not None:
             v = [str(c["fill"])]
             if c["fill_tr"] is not None:
                 v += ["(" + str(c["fill_tr"]) + ")"]
